@@ -352,7 +352,7 @@ fn extract_source_map<R: Read>(
 
 // `data:application/json;charset=utf-8;base64,...` (the form emitted by most bundlers) is the same as
 // `data:application/json;base64,...`, the only form understood by decode_data_url
-fn normalize_data_url(url: &str) -> Cow<str> {
+fn normalize_data_url(url: &str) -> Cow<'_, str> {
     const JSON_DATA_URL: &str = "data:application/json;";
     const BASE64: &str = "base64,";
     if let Some(rest) = url.strip_prefix(JSON_DATA_URL) {
